@@ -400,6 +400,33 @@ impl<'a> Recorder<'a> {
                     continue;
                 }
                 self.seen_target.insert(key);
+                // The crate may be broken in a way that kills the process later (or while the history is
+                // replayed for shrinking): the unshrunk witness is on disk and announced before anything else
+                // happens, so that the verdict survives a crash of this shard.
+                {
+                    let mut x = hash_str(cfg);
+                    for e in trace {
+                        x = mix(x, e.code());
+                    }
+                    let raw_path = format!("{}/{}-{}-{:012x}-raw.witness", self.opts.replay_dir, f.prop, D::name(), mix(x, hash_str(f.pred)) & 0xffff_ffff_ffff);
+                    let raw = Witness {
+                        driver: D::name().to_string(),
+                        cfg: cfg.to_string(),
+                        k,
+                        bounded,
+                        fail: f.clone(),
+                        shrunk_from: trace.len(),
+                        trace: trace.to_vec(),
+                        names: trace.iter().map(|e| D::ev_name(*e)).collect(),
+                        path: raw_path.clone(),
+                    };
+                    write_witness(&raw);
+                    let last = trace.last().map(|e| D::ev_name(*e)).unwrap_or_default();
+                    let last = last.split('(').next().unwrap_or("?").to_string();
+                    println!("EARLY-VIOLATION property={} replay={} sig=hist:{}:{}:last={}:{}", f.prop, raw_path, D::name(), f.pred, last, cfg);
+                    use std::io::Write;
+                    let _ = std::io::stdout().flush();
+                }
                 // shrinking replays the history once per removed event: only worth it for short ones
                 let shrunk = if !allow_shrink || self.opts.no_shrink || cfg!(miri) || trace.len() > 3000 {
                     trace.to_vec()
@@ -511,7 +538,12 @@ pub fn run_random<D: Driver>(opts: &RunOpts) -> Outcome {
     // hand written prefixes run on every 4th shard of a leg (they are deterministic: repeating them on
     // every shard adds nothing) and always in scenario mode
     if opts.mode == "scenario" || (opts.mode == "random" && opts.shard % 4 == 0) {
-        for c in &cfgs {
+        for (ci, c) in cfgs.iter().enumerate() {
+            // scenario legs split the configurations over their shards: a crate that is broken badly enough to
+            // kill the process on one configuration does not take the verdicts on the others with it
+            if opts.mode == "scenario" && ci % opts.shards.max(1) != opts.shard {
+                continue;
+            }
             for s in D::scenarios(c) {
                 scenario_queue.push_back((c.clone(), s));
             }
@@ -530,7 +562,8 @@ pub fn run_random<D: Driver>(opts: &RunOpts) -> Outcome {
         };
         let profile = (rng.next() % 4) as u8;
         let novelty = rng.chance(1, 2);
-        let k = opts.k;
+        // hand written prefixes address up to 8 slots (deep queues): they get the slots they need
+        let k = if prefix.is_empty() || cfg!(miri) { opts.k } else { opts.k.max(8) };
         let mut d = D::new(&cfg, k, false);
         let mut trace: Vec<Ev> = vec![];
         let ep_len = if cfg!(miri) {
